@@ -269,12 +269,31 @@ func roundTrip(c *core.Ctx, idx int64, e entry, g reflect.Value, dirty *reflect.
 	c.Count("held:encode-exact")
 
 	target := reflect.New(e.t).Elem()
+	var kept reflect.Value
+	keptText := ""
 	if dirty != nil {
 		target = *dirty
+	}
+	if dirty != nil && storageOnly(e.t) {
+		// (only for types whose shared storage is slices and maps: a non-nil pointer in a target is documented
+		// to be populated in place, so a kept copy legitimately sees the new pointee)
+		// what a caller holds who kept the result of an earlier decode into this target: a copy of the variable,
+		// sharing backing arrays, maps and pointees with it
+		kept = reflect.New(e.t).Elem()
+		kept.Set(*dirty)
+		keptText = goText(kept)
 	}
 	o = core.Guard(func() { err = gocty.FromCtyValue(v, target.Addr().Interface()) })
 	c.Eval(1)
 	c.Count("op:FromCtyValue")
+	if kept.IsValid() && !o.Panicked && err == nil {
+		c.Count("clause:earlier-content-of-the-target-untouched")
+		if now := goText(kept); now != keptText {
+			c.Violate(siteFrom, "decoding into a used target rewrote the value it held before (still held by the caller)", "earlier-result:"+e.name, desc(),
+				fmt.Sprintf("the target held %s; after decoding %#v into it, the copy kept by the caller reads %s", keptText, v, now))
+			return
+		}
+	}
 	switch {
 	case o.Panicked:
 		c.Violate(siteFrom, "panic: "+core.PanicClass(o.PanicMsg), "round-trip:"+e.name, desc(), fmt.Sprintf("encoded as %#v; %s\n%s", v, o.PanicMsg, o.Stack))
@@ -520,4 +539,39 @@ func decodeCase(c *core.Ctx, idx int64, kind string, v cty.Value, t reflect.Type
 		}
 		c.Sample(m)
 	}
+}
+
+// storageOnly: t has a slice or a map somewhere and no pointer, interface, big number or cty.Value anywhere.
+func storageOnly(t reflect.Type) bool {
+	has := false
+	var ok func(t reflect.Type, depth int) bool
+	ok = func(t reflect.Type, depth int) bool {
+		if depth > 8 {
+			return false
+		}
+		switch t {
+		case gen.GoCtyValueType, gen.GoBigIntType, gen.GoBigFloatType:
+			return false
+		}
+		switch t.Kind() {
+		case reflect.Ptr, reflect.Interface, reflect.Func, reflect.Chan, reflect.UnsafePointer:
+			return false
+		case reflect.Slice:
+			has = true
+			return ok(t.Elem(), depth+1)
+		case reflect.Array:
+			return ok(t.Elem(), depth+1)
+		case reflect.Map:
+			has = true
+			return ok(t.Key(), depth+1) && ok(t.Elem(), depth+1)
+		case reflect.Struct:
+			for i := 0; i < t.NumField(); i++ {
+				if !ok(t.Field(i).Type, depth+1) {
+					return false
+				}
+			}
+		}
+		return true
+	}
+	return ok(t, 0) && has
 }
